@@ -287,7 +287,9 @@ class Sym:
             return True
         return SymBool(("not", ("eq", self - o2)))
 
-    __hash__ = None
+    def __hash__(self):
+        # by value (the polynomial): a cache keyed on numbers hits for syntactically equal values; `==` on a collision is a decision
+        return hash(self.key())
 
     def __round__(self, ndigits=None):
         """round(x, n): the multiple of 10^-n nearest to x, as an integer ghost m with |x * 10^n - m| <= 1/2 (ties: either way --
